@@ -19,8 +19,34 @@ pub struct Dat(pub u64);
 #[derive(Clone, Copy, PartialEq, Eq, Debug)]
 pub struct Mrk(pub u8);
 
+thread_local! {
+    /// (constructed or cloned, dropped) instances of the zero-sized `Zmk`
+    static ZC: std::cell::Cell<(i64, i64)> = const { std::cell::Cell::new((0, 0)) };
+}
+/// Zero-sized with `Drop` and a counting `Clone`.
+pub struct Zmk;
+impl Zmk {
+    fn new() -> Self {
+        ZC.with(|c| c.set((c.get().0 + 1, c.get().1)));
+        Zmk
+    }
+}
+impl Clone for Zmk {
+    fn clone(&self) -> Self {
+        Zmk::new()
+    }
+}
+impl Drop for Zmk {
+    fn drop(&mut self) {
+        ZC.with(|c| c.set((c.get().0, c.get().1 + 1)));
+    }
+}
+/// Plain unit component.
+#[derive(Clone, Copy)]
+pub struct Zun;
+
 pub mod pw {
-    use super::{Dat, Mrk, Uid};
+    use super::{Dat, Mrk, Uid, Zmk, Zun};
     use gecs::prelude::*;
     ecs_world! {
         ecs_name!(PW);
@@ -28,6 +54,9 @@ pub mod pw {
         ecs_archetype!(Oth, Uid, Mrk);
         #[archetype_id(77)]
         ecs_archetype!(Pop, Uid, Dat);
+        // every column zero-sized: no column has an address range to walk, identity is the handle alone
+        #[archetype_id(200)]
+        ecs_archetype!(Zst, Zmk, Zun);
     }
 }
 use pw::*;
@@ -53,6 +82,9 @@ pub struct PopStats {
     pub handles_compared_for_reissue: u64,
     pub growth_steps: u64,
     pub phases: u64,
+    pub zst_worlds: u64,
+    pub zst_sweeps: u64,
+    pub zst_values_balanced: u64,
 }
 
 macro_rules! vio {
@@ -201,7 +233,7 @@ fn sweep(s: &mut St, at: &str, st: &mut PopStats) -> Result<(), Vio> {
 
 fn one(n: usize, cap0: usize, st: &mut PopStats) -> Result<(), Vio> {
     st.worlds_built += 1;
-    let w = match catch_unwind(|| PW::with_capacity(PWCapacity { oth: 0, pop: cap0 })) {
+    let w = match catch_unwind(|| PW::with_capacity(PWCapacity { oth: 0, pop: cap0, zst: 0 })) {
         Ok(w) => w,
         Err(p) => vio!("C12", "with-capacity-panicked", "with_capacity({}) panicked: {}", cap0, panic_msg(&p)),
     };
@@ -393,6 +425,154 @@ fn one(n: usize, cap0: usize, st: &mut PopStats) -> Result<(), Vio> {
     Ok(())
 }
 
+/// The all-zero-sized archetype `Zst = (Zmk, Zun)`: the same scripted history at population `n`, identity by handle only,
+/// value accounting by the construction / drop counters of `Zmk`.
+fn zst_one(n: usize, cap0: usize, st: &mut PopStats) -> Result<(), Vio> {
+    st.zst_worlds += 1;
+    ZC.with(|c| c.set((0, 0)));
+    let balance = |at: &str, owned: i64| -> Result<(), Vio> {
+        let (made, dropped) = ZC.with(|c| c.get());
+        if made - dropped != owned {
+            vio!("C04", "zst-balance", "{}: {} zero-sized values constructed or cloned, {} dropped, but the worlds own {}", at, made, dropped, owned);
+        }
+        Ok(())
+    };
+    let r = catch_unwind(AssertUnwindSafe(|| -> Result<(), Vio> {
+        let mut w = PW::with_capacity(PWCapacity { oth: 0, pop: 0, zst: cap0 });
+        if w.zst.capacity() < cap0 {
+            vio!("C12", "capacity-below-requested", "all-ZST archetype: with_capacity({}) gives {}", cap0, w.zst.capacity());
+        }
+        let mut hs: Vec<(Entity<Zst>, bool)> = Vec::new();
+        let mut alive = 0usize;
+        let sweep = |w: &mut PW, hs: &Vec<(Entity<Zst>, bool)>, alive: usize, at: &str| -> Result<(), Vio> {
+            if w.zst.len() != alive || w.zst.is_empty() != (alive == 0) || w.zst.capacity() < alive {
+                vio!("C12", "len", "all-ZST archetype {}: len {} capacity {} with {} alive", at, w.zst.len(), w.zst.capacity(), alive);
+            }
+            let l0 = w.zst.entities().len();
+            let l1 = w.zst.get_slice::<Zmk>().len();
+            let l2 = w.zst.get_slice_mut::<Zun>().len();
+            let l3 = { let b = w.zst.borrow_slice::<Zmk>(); b.len() };
+            let l4 = { let b = w.zst.borrow_slice_mut::<Zun>(); b.len() };
+            let (l5, l6) = { let s = w.zst.get_all_slices_mut(); (s.entity.len().max(s.zmk.len()).max(s.zun.len()), s.entity.len().min(s.zmk.len()).min(s.zun.len())) };
+            let lens = [l0, l1, l2, l3, l4, l5, l6];
+            if lens.iter().any(|l| *l != alive) {
+                vio!("C06,C12", "slice-length", "all-ZST archetype {}: slice lengths {:?} with {} alive", at, lens, alive);
+            }
+            for (i, (e, a)) in hs.iter().enumerate() {
+                let any = e.into_any();
+                if *a {
+                    let idx = w.zst.resolve(*e);
+                    let ok = w.contains(*e) && w.contains(any) && idx.map(|x| x < alive && w.zst.entities()[x] == *e).unwrap_or(false) && w.view(*e).is_some() && w.zst.borrow(any).is_some()
+                        && ecs_find!(w, any, |_z: &Zmk, me: &Entity<Zst>| *me) == Some(*e) && w.to_direct(*e).map(|d| w.zst.resolve(d) == idx).unwrap_or(false);
+                    if !ok {
+                        vio!("C01", "live-handle-rejected", "all-ZST archetype {}: live entity {} ({:?}) is refused or mis-resolved (resolve {:?})", at, i, e, idx);
+                    }
+                } else if w.contains(*e) || w.contains(any) || w.zst.resolve(*e).is_some() || w.view(*e).is_some() || ecs_find!(w, any, |_z: &Zun| ()).is_some() || w.to_direct(any).is_some() {
+                    vio!("C01", "stale-handle-accepted", "all-ZST archetype {}: destroyed entity {} ({:?}) is accepted", at, i, e);
+                }
+            }
+            for form in 0..5 {
+                let mut seen: Vec<Entity<Zst>> = Vec::with_capacity(alive);
+                match form {
+                    0 => ecs_iter!(w, |e: &Entity<Zst>, _z: &Zmk| { seen.push(*e); }),
+                    1 => ecs_iter_borrow!(w, |e: &Entity<Zst>, _z: &mut Zun| { seen.push(*e); }),
+                    2 => { for (e, _z, _u) in w.zst.iter() { seen.push(*e); } }
+                    3 => { for (e, _z, _u) in w.zst.iter_mut() { seen.push(*e); } }
+                    _ => ecs_iter!(w, |e: &EntityAny, _z: &Zmk, _u: &Zun| { if let Ok(t) = Entity::<Zst>::try_from(*e) { seen.push(t); } }),
+                }
+                let n_seen = seen.len();
+                seen.sort_unstable_by_key(|e| e.into_any().raw());
+                seen.dedup();
+                let mut want: Vec<Entity<Zst>> = hs.iter().filter(|h| h.1).map(|h| h.0).collect();
+                want.sort_unstable_by_key(|e| e.into_any().raw());
+                if n_seen != alive || seen != want {
+                    vio!("C06", "iteration-misses-entities", "all-ZST archetype {}: iteration form {} produced {} items ({} distinct) with {} alive", at, form, n_seen, seen.len(), alive);
+                }
+            }
+            Ok(())
+        };
+        for i in 0..n {
+            let e = if i < cap0 {
+                match w.create_within_capacity::<Zst>((Zmk::new(), Zun)) { Ok(e) => e, Err(_) => vio!("C12", "within-capacity-refuses-with-room", "all-ZST archetype: create_within_capacity refused entity {} of {} requested", i + 1, cap0) }
+            } else if i % 2 == 0 { w.create::<Zst>((Zmk::new(), Zun)) } else { w.zst.create((Zmk::new(), Zun)) };
+            hs.push((e, true));
+            alive += 1;
+        }
+        balance("after the fill", alive as i64)?;
+        sweep(&mut w, &hs, alive, "after the fill")?;
+        st.zst_sweeps += 1;
+        for i in (0..n).filter(|i| i % 3 == 1) {
+            let got = match (i / 3) % 3 { 0 => w.destroy(hs[i].0).is_some(), 1 => w.zst.destroy(hs[i].0.into_any()).is_some(), _ => w.destroy(hs[i].0.into_any()).is_some() };
+            if !got {
+                vio!("C01", "live-handle-rejected:destroy", "all-ZST archetype: destroy of live entity {} returned None", i);
+            }
+            hs[i].1 = false;
+            alive -= 1;
+        }
+        balance("after the scattered destroys (returned components dropped)", alive as i64)?;
+        sweep(&mut w, &hs, alive, "after the scattered destroys")?;
+        st.zst_sweeps += 1;
+        // keep what a destroy hands back: it must not be dropped by the world as well
+        if let Some(i) = (0..n).find(|i| hs[*i].1) {
+            let kept = w.destroy(hs[i].0);
+            hs[i].1 = false;
+            alive -= 1;
+            balance("while holding the components a destroy returned", alive as i64 + 1)?;
+            drop(kept);
+            balance("after dropping the components a destroy returned", alive as i64)?;
+        }
+        let before = alive;
+        let mut k = 0usize;
+        let mut visited = 0usize;
+        ecs_iter_destroy!(w, |_e: &Entity<Zst>, _z: &Zmk| { visited += 1; k += 1; if k % 2 == 0 { EcsStepDestroy::ContinueDestroy } else { EcsStepDestroy::Continue } });
+        if visited != before || w.zst.len() != before - before / 2 {
+            vio!("C07", "wrong-number-destroyed", "all-ZST archetype: ecs_iter_destroy! visited {} of {}, len {} afterwards, expected {}", visited, before, w.zst.len(), before - before / 2);
+        }
+        for h in hs.iter_mut().filter(|h| h.1) {
+            if !w.contains(h.0) { h.1 = false; alive -= 1; }
+        }
+        if alive != w.zst.len() {
+            vio!("C07,C12", "len", "all-ZST archetype: {} handles still accepted after ecs_iter_destroy!, len {}", alive, w.zst.len());
+        }
+        balance("after ecs_iter_destroy!", alive as i64)?;
+        sweep(&mut w, &hs, alive, "after ecs_iter_destroy!")?;
+        st.zst_sweeps += 1;
+        let cap = w.zst.capacity();
+        while w.zst.len() < cap.min(n) {
+            match w.create_within_capacity::<Zst>((Zmk::new(), Zun)) {
+                Ok(e) => { hs.push((e, true)); alive += 1; }
+                Err(_) => vio!("C12", "freed-position-not-reusable", "all-ZST archetype: create_within_capacity refuses with len {} capacity {}", w.zst.len(), cap),
+            }
+        }
+        if w.zst.capacity() != cap {
+            vio!("C12", "capacity-changed-by-refill", "all-ZST archetype: capacity {} -> {} on a refill", cap, w.zst.capacity());
+        }
+        let mut raw: Vec<(u32, u32)> = hs.iter().map(|h| h.0.into_any().raw()).collect();
+        raw.sort_unstable();
+        if raw.windows(2).any(|p| p[0] == p[1]) {
+            vio!("C08,C01,C14", "handle-reissued", "all-ZST archetype: a handle was issued twice");
+        }
+        balance("after the refill", alive as i64)?;
+        sweep(&mut w, &hs, alive, "after the refill")?;
+        st.zst_sweeps += 1;
+        let mut c = w.clone();
+        balance("after clone (one Clone::clone per live value)", 2 * alive as i64)?;
+        sweep(&mut c, &hs, alive, "in the clone")?;
+        st.zst_sweeps += 1;
+        drop(w);
+        balance("after dropping the original", alive as i64)?;
+        sweep(&mut c, &hs, alive, "in the clone after dropping the original")?;
+        drop(c);
+        balance("after dropping both worlds", 0)?;
+        st.zst_values_balanced += ZC.with(|c| c.get().0) as u64;
+        Ok(())
+    }));
+    match r {
+        Ok(r) => r,
+        Err(p) => vio!("C01,C04,C06,C12", "zst-panicked", "all-ZST archetype (population {}, capacity {}): an operation panicked: {}", n, cap0, panic_msg(&p)),
+    }
+}
+
 /// No handle was ever issued twice (sorting the raw bits of everything issued so far).
 fn check_distinct(s: &St, st: &mut PopStats, at: &str) -> Result<(), Vio> {
     let mut raw: Vec<(u32, u32)> = s.handles.iter().map(|e| e.into_any().raw()).collect();
@@ -401,7 +581,7 @@ fn check_distinct(s: &St, st: &mut PopStats, at: &str) -> Result<(), Vio> {
     st.handles_compared_for_reissue += raw.len() as u64;
     for w in raw.windows(2) {
         if w[0] == w[1] {
-            vio!("C08,C01", "handle-reissued", "{}: the handle {:?} was issued twice", at, w[0]);
+            vio!("C08,C01,C14", "handle-reissued", "{}: the handle {:?} was issued twice", at, w[0]);
         }
     }
     Ok(())
@@ -410,6 +590,17 @@ fn check_distinct(s: &St, st: &mut PopStats, at: &str) -> Result<(), Vio> {
 pub fn run_pop(sizes: &[usize]) -> (Vec<Vio>, PopStats) {
     let mut st = PopStats { sizes: sizes.to_vec(), ..Default::default() };
     let mut out: Vec<Vio> = Vec::new();
+    // the archetype whose columns are all zero-sized: every small population (the early-exit shapes) and two large ones
+    for n in (0..=9usize).chain([64, 1000, 70001]) {
+        for cap0 in [0usize, 1, n] {
+            if let Err(mut v) = zst_one(n, cap0, &mut st) {
+                v.msg = format!("{} [all-ZST population {}, initial capacity {}]", v.msg, n, cap0);
+                if !out.iter().any(|o| o.oracle == v.oracle) {
+                    out.push(v);
+                }
+            }
+        }
+    }
     for &n in sizes {
         // through every growth step from nothing, and with the exact capacity requested up front
         for cap0 in [0usize, n] {
